@@ -18,7 +18,7 @@ import traceback
 import numpy as np
 import z3
 
-from . import sym
+from . import interval, sym
 from .sym import Abandon, Infeasible, PathAbort, SBool, SInt, SReal
 
 VERIF = os.path.dirname(os.path.dirname(os.path.abspath(__file__)))
@@ -118,6 +118,10 @@ class Config:
         self.branch_timeout_ms = 2000
         self.max_paths = 20000 if tier == "quick" else 400000
         self.validate_every = 1
+        self.interval_first = False   # try to discharge inequalities by interval enclosure first
+        self.bb_max_boxes = 20000
+        self.slice_first = False      # try obligations on the cone of influence of the claim first
+        self.slice_timeout_ms = 10000
         self.use_cvc5 = True
         self.incremental_first = True  # linear-ish harnesses; nonlinear ones switch it off
         self.sample_cex = False  # harnesses with uninterpreted elementary functions switch it on
@@ -201,6 +205,18 @@ class PathCtx:
         self.kf_hit = False  # a known finding matched on this path
         self.dyadic_vars = None  # set by a harness: prefer float-exact (dyadic) models
         self.dyadic_denom = 1 << 16
+        self.box = {}            # symbol name -> (lo, hi) exact fractions (interval pruning)
+        self.defs = {}           # auxiliary symbol -> its defining constraints (slicing)
+        self.sqrt_args = {}      # sqrt symbol -> the term it is the square root of
+
+    def _box(self, name, lo, hi):
+        if lo is None or hi is None:
+            return
+        try:
+            a, b = z3.simplify(sym.lift(lo)), z3.simplify(sym.lift(hi))
+            self.box[name] = (a.as_fraction(), b.as_fraction())
+        except Exception:  # noqa: BLE001  (symbolic bounds: no box)
+            pass
 
     # ------------------------------------------------------------ symbols
     def real(self, name, lo=None, hi=None) -> SReal:
@@ -210,6 +226,7 @@ class PathCtx:
             self._add(v >= sym.lift(lo))
         if hi is not None:
             self._add(v <= sym.lift(hi))
+        self._box(name, lo, hi)
         return SReal(v)
 
     def reals(self, name, shape, lo=None, hi=None):
@@ -228,6 +245,7 @@ class PathCtx:
             self._add(v >= int(lo))
         if hi is not None:
             self._add(v <= int(hi))
+        self._box(name, lo, hi)
         return SInt(v)
 
     def boolean(self, name) -> SBool:
@@ -246,7 +264,18 @@ class PathCtx:
         self._nsqrt += 1
         r = z3.Real(f"sqrt!{self._nsqrt}")
         self._sqrt[k] = (r, arg)
-        self._add(z3.And(r >= 0, r * r == arg))
+        d = z3.And(r >= 0, r * r == arg)
+        self._add(d)
+        self.defs[f"sqrt!{self._nsqrt}"] = [d]
+        self.sqrt_args[f"sqrt!{self._nsqrt}"] = arg
+        iv = interval.ival(arg, self.box)
+        if iv is not None:
+            lo, hi = interval.sqrt_bounds(*iv)
+            self.box[f"sqrt!{self._nsqrt}"] = (lo, hi)
+            # implied by r*r == arg on the box of the symbols; stated to spare the solver the derivation
+            bd = z3.And(r >= sym.rv(lo), r <= sym.rv(hi))
+            self._add(bd)
+            self.defs[f"sqrt!{self._nsqrt}"].append(bd)
         return r
 
     # ------------------------------------------------------------ constraints
@@ -255,10 +284,32 @@ class PathCtx:
         c = z3.simplify(t)
         if z3.is_rational_value(c) or z3.is_int_value(c):
             return 1 if c.as_fraction() >= 0 else -1
+        iv = interval.ival(t, self.box)
+        if iv is not None:
+            if iv[0] >= 0:
+                return 1
+            if iv[1] <= 0:
+                return -1
         r, _ = self._inc_check(t < 0)
         if r == "unsat":
             return 1
         r, _ = self._inc_check(t > 0)
+        if r == "unsat":
+            return -1
+        return 0
+
+    def sign_strict(self, t):
+        """+1 if the path implies t > 0, -1 if it implies t < 0, else 0 (no fork)."""
+        iv = interval.ival(t, self.box)
+        if iv is not None:
+            if iv[0] > 0:
+                return 1
+            if iv[1] < 0:
+                return -1
+        r, _ = self._inc_check(t <= 0)
+        if r == "unsat":
+            return 1
+        r, _ = self._inc_check(t >= 0)
         if r == "unsat":
             return -1
         return 0
@@ -347,6 +398,11 @@ class PathCtx:
         i = len(self.decisions)
         if i < len(self.prefix):
             return self._record(cond, self.prefix[i]["take"], False)
+        d = interval.decide(cond, self.box)
+        if d is not None:
+            # the box of the declared symbols alone refutes the other side
+            self.rep.extra["branches_decided_by_intervals"] = self.rep.extra.get("branches_decided_by_intervals", 0) + 1
+            return self._record(cond, d, False)
         rt, _ = self._inc_check(cond)
         rf, _ = self._inc_check(z3.Not(cond))
         if rt == "unknown" or rf == "unknown":
@@ -397,6 +453,50 @@ class PathCtx:
             self._record(e == v, True, ro != "unsat", v)
             return v
 
+    def _sliced_unsat(self, goal):
+        """True if goal is unsatisfiable together with a SUBSET of the path condition: the definitions
+        of the auxiliary symbols (square roots) the goal depends on, and every other constraint that
+        only mentions symbols already involved.  'unsat' on a subset carries over to the full path
+        condition; any other answer is ignored and the full query is made."""
+        need = set(_symbols(goal))
+        if not need:
+            return False
+        done = set()
+        sel = []
+        changed = True
+        while changed:
+            changed = False
+            for n in sorted(need):
+                if n in self.defs and n not in done:
+                    done.add(n)
+                    for c in self.defs[n]:
+                        sel.append(c)
+                        need |= _symbols(c)
+                    changed = True
+        def_ids = {c.get_id() for cs in self.defs.values() for c in cs}
+        dropped = 0
+        for c in self.constraints:
+            if c.get_id() in def_ids:
+                if not any(c.get_id() == x.get_id() for x in sel):
+                    dropped += 1
+                continue
+            if _symbols(c) <= need:
+                sel.append(c)
+            else:
+                dropped += 1
+        if not dropped:
+            return False          # nothing dropped: same as the full query
+
+        def f():
+            so = z3.Solver()
+            so.set("timeout", int(self.ex.cfg.slice_timeout_ms))
+            for c in sel:
+                so.add(c)
+            so.add(goal)
+            return str(so.check())
+
+        return self._timed(f) == "unsat"
+
     # ------------------------------------------------------------ obligations
     def check(self, name, claim, case=None, known=()):
         """Obligation: claim holds for every input on this path.
@@ -420,6 +520,27 @@ class PathCtx:
             return True
         excl = []
         try:
+            if self.ex.cfg.interval_first and interval.decide(claim, self.box) is True:
+                # the claim holds on the whole box of the symbols by interval enclosure (sound
+                # over-approximation; no solver call needed)
+                rep.discharged += 1
+                cls[1] += 1
+                rep.extra["discharged_by_interval_enclosure"] = rep.extra.get("discharged_by_interval_enclosure", 0) + 1
+                return True
+            if self.ex.cfg.interval_first and interval.prove_bb(
+                    claim_s, self.box, dict(self.sqrt_args), self.ex.cfg.bb_max_boxes,
+                    diff=lambda t, n: _zdiff(t, z3.Real(n), self)) is True:
+                rep.discharged += 1
+                cls[1] += 1
+                rep.extra["discharged_by_interval_branch_and_bound"] = rep.extra.get(
+                    "discharged_by_interval_branch_and_bound", 0) + 1
+                return True
+            if self.ex.cfg.slice_first and self._sliced_unsat(z3.Not(claim)):
+                rep.discharged += 1
+                cls[1] += 1
+                rep.extra["discharged_on_sliced_path_condition"] = rep.extra.get(
+                    "discharged_on_sliced_path_condition", 0) + 1
+                return True
             while True:
                 st = "unknown"
                 if self.ex.cfg.incremental_first:
@@ -664,6 +785,43 @@ class PathCtx:
     def sample(self, obj):
         if len(self.rep.samples) < 12:
             self.rep.samples.append(obj)
+
+
+_SYMS = {}
+
+
+def _zdiff(t, x, ctx):
+    from .diff import zdiff
+
+    return zdiff(t, x, ctx)
+
+
+def _symbols(e):
+    """Names of the uninterpreted constants in e (memoised on the term id)."""
+    k = e.get_id()
+    r = _SYMS.get(k)
+    if r is not None:
+        return r
+    out = set()
+    seen = set()
+    stack = [e]
+    while stack:
+        t = stack.pop()
+        i = t.get_id()
+        if i in seen:
+            continue
+        seen.add(i)
+        if z3.is_app(t):
+            if t.num_args() == 0:
+                if t.decl().kind() == z3.Z3_OP_UNINTERPRETED:
+                    out.add(t.decl().name())
+            else:
+                stack.extend(t.children())
+    r = frozenset(out)
+    if len(_SYMS) > 200000:
+        _SYMS.clear()
+    _SYMS[k] = r
+    return r
 
 
 def _compare(a, b, rtol, atol):
